@@ -107,6 +107,9 @@ struct Tr {
     } else if (auto* AT = dyn_cast<ArrayType>(T)) {
       r = "struct a" + std::to_string(next_id++) + "_" + std::to_string(AT->getNumElements());
       all_aggr.push_back(T);
+    } else if (auto* VT = dyn_cast<FixedVectorType>(T)) { // residual vectors (e.g. complex helpers of compiler-rt): a struct around an array
+      r = "struct vec" + std::to_string(next_id++) + "_" + std::to_string(VT->getNumElements());
+      all_aggr.push_back(T);
     } else if (isa<FunctionType>(T)) {
       r = "fn" + std::to_string(next_id++);
       all_fn.push_back(cast<FunctionType>(T));
@@ -149,10 +152,14 @@ struct Tr {
   }
   void define_aggr(Type* T, raw_ostream& O)
   {
-    if (!T->isStructTy() && !T->isArrayTy())
+    if (!T->isStructTy() && !T->isArrayTy() && !T->isVectorTy())
       return;
     if (!done.insert(T).second)
       return;
+    if (auto* VT = dyn_cast<FixedVectorType>(T)) {
+      O << tyname[T] << " { " << ty(VT->getElementType()) << " a[" << VT->getNumElements() << "]; };\n";
+      return;
+    }
     if (auto* ST = dyn_cast<StructType>(T)) {
       if (ST->isOpaque())
         return;
@@ -183,7 +190,9 @@ struct Tr {
         if (!ST->isOpaque())
           for (Type* E : ST->elements())
             ty(E);
-      } else
+      } else if (auto* VT = dyn_cast<FixedVectorType>(T))
+        ty(VT->getElementType());
+      else
         ty(cast<ArrayType>(T)->getElementType());
       if (i + 1 == all_aggr.size()) { // also close over function types discovered so far
         for (size_t j = 0; j < all_fn.size(); j++) {
@@ -270,7 +279,7 @@ struct Tr {
     if (isa<ConstantPointerNull>(C))
       return "((" + ty(T) + ")0)";
     if (isa<UndefValue>(C) || isa<ConstantAggregateZero>(C)) { // undef/poison modelled as zero
-      if (T->isStructTy() || T->isArrayTy())
+      if (T->isStructTy() || T->isArrayTy() || T->isVectorTy())
         return init ? "{0}" : "((" + ty(T) + "){0})";
       if (T->isFloatingPointTy())
         return "((" + ty(T) + ")0.0)";
@@ -565,6 +574,8 @@ struct Tr {
         return "(*" + A(0) + ")";
       case Instruction::Freeze:
         return A(0);
+      case Instruction::ExtractElement:
+        return "(" + A(0) + ".a[" + A(1) + "])";
       case Instruction::ExtractValue: {
         auto* EV      = cast<ExtractValueInst>(I);
         std::string e = A(0);
